@@ -11,7 +11,7 @@ def run(tier, seed):
              'variable orders, constants on either side) and bounds / distance / equates queries, on networks in random '
              'consistent states; in every model the returned literal is true only if the asserted difference constraints '
              'entail the relation and false only if they entail its negation (Fourier-Motzkin; integer tightening for IDL); '
-             'query answers equal the values computed from the logged variable-level matrix; distinct_nontrivial = distinct '
+             'query answers equal the values computed from the logged variable-level matrix, and that matrix is the exact closure of the relations whose literal is true and of the negations of those whose literal is false (a literal made false enforces the negation of its relation); distinct_nontrivial = distinct '
              'executions with a relation request or an expression query',
         assumptions=['at most 6 theory atoms per execution', 'integer theory: constants divisible by the leading coefficient'])
 
